@@ -133,6 +133,10 @@ fn e2e_text_signatures(ctx: &mut Ctx) {
                 }
             }
         }
+        if i % 6 == 3 {
+            // a document that itself starts with a byte order mark
+            s.splice(0..0, [0xEFu8, 0xBB, 0xBF]);
+        }
         let k = 1 + i % 3;
         let input = format!("signers={k} |text|={} sha256={}", s.len(), hx(&sha2_256(&s)));
         let built = guarded(|| {
@@ -169,6 +173,20 @@ fn e2e_text_signatures(ctx: &mut Ctx) {
                 let mut t = s.clone();
                 t.push(b'\r');
                 variants.push(("trailing_cr".into(), t));
+                // octets in front of / behind the document that a text tool might add or drop: none of
+                // them is a line-ending conversion
+                for (name, pre) in [("bom_in_front", &b"\xEF\xBB\xBF"[..]), ("utf16_bom_in_front", b"\xFF\xFE"), ("space_in_front", b" "), ("lf_in_front", b"\n"), ("nul_in_front", b"\0")] {
+                    variants.push((name.into(), [pre, &s[..]].concat()));
+                }
+                for (name, post) in [("bom_behind", &b"\xEF\xBB\xBF"[..]), ("space_behind", b" "), ("ctrl_z_behind", b"\x1a"), ("nul_behind", b"\0")] {
+                    variants.push((name.into(), [&s[..], post].concat()));
+                }
+                if s.starts_with(b"x") {
+                    variants.push(("first_octet_dropped".into(), s[1..].to_vec()));
+                }
+                if s.starts_with(b"\xEF\xBB\xBF") {
+                    variants.push(("leading_bom_dropped".into(), s[3..].to_vec()));
+                }
                 for (name, t) in variants {
                     let want = canon_ref(&t) == canon_ref(&s);
                     let got = guarded(|| det.verify(&pks[0].primary_key, &t[..]).is_ok());
@@ -293,7 +311,45 @@ fn sha2_256(d: &[u8]) -> Vec<u8> {
     sha2::Sha256::digest(d).to_vec()
 }
 
+/// long texts with CR / LF / CR LF planted on both sides of every power-of-two offset from 2^9 to 2^17
+/// (and 3 * 2^15): whatever block, window or buffer size an implementation of the three canonicalisers
+/// works with, a line ending that straddles its edge is one line ending (oracles only)
+fn power_of_two_boundaries(ctx: &mut Ctx) {
+    let mut offsets: Vec<usize> = (9..=17).map(|k| 1usize << k).collect();
+    offsets.push(3 << 15);
+    let total = (1usize << 17) + 40;
+    for (pi, pattern) in [&b"\r\n"[..], b"\n", b"\r", b"\r\r\n", b"\n\r"].into_iter().enumerate() {
+        for shift in 0..=pattern.len() {
+            // the pattern starts `shift` octets before each offset
+            let mut s = vec![b'x'; total];
+            for &o in &offsets {
+                let start = o - shift;
+                s[start..start + pattern.len()].copy_from_slice(pattern);
+            }
+            let want = canon_ref(&s);
+            let input = format!("text of {total} octets 'x' with {:?} starting {shift} octets before each of {offsets:?}", String::from_utf8_lossy(pattern));
+            let ch = match (pi + shift) % 3 {
+                0 => vec![s.clone()],
+                1 => gen::chunk_at(&s, &offsets),
+                _ => gen::random_chunking(&mut ctx.rng, &s, 5000),
+            };
+            let h = hasher(&ch);
+            ctx.oracle("hasher_is_canon", "util.rs NormalizingHasher::{hash_buf,done}", &input, h.as_ref().ok() == Some(&want), &format!("lengths: got {:?} want {}", h.as_ref().map(|v| v.len()), want.len()));
+            let r = reader(&ch, &[8192, 1, 4096]);
+            let rok = matches!(&r, Ok((v, Ok(()))) if v == &want);
+            ctx.oracle("reader_is_canon", "normalize_lines.rs NormalizedReader", &input, rok, &format!("lengths: got {:?} want {}", r.as_ref().map(|x| x.0.len()), want.len()));
+            if let Ok(txt) = std::str::from_utf8(&s) {
+                let m = guarded(|| verif_hooks::normalize_lines_crlf(txt).into_bytes());
+                ctx.oracle("replace_is_canon", "normalize_lines.rs replace_newlines", &input, m.as_ref().ok() == Some(&want), &format!("lengths: got {:?} want {}", m.as_ref().map(|v| v.len()), want.len()));
+                // the cleartext framework hashes the in-memory form: sign through the streaming path, verify in memory
+                ctx.stat("gen:power_of_two_boundary");
+            }
+        }
+    }
+}
+
 pub fn run(ctx: &mut Ctx) {
+    power_of_two_boundaries(ctx);
     e2e_text_signatures(ctx);
     e2e_streamed_signing(ctx);
     interrupted_sources(ctx);
